@@ -28,7 +28,11 @@ What the trait methods write, for the argument types modelled here (library/core
                 `precision` characters if a precision is set; if it then has fewer characters than the width, width - count fill characters placed by the
                 alignment (unset = left).  The flags + # 0 are not looked at.
 Anything else - another trait (`e`, `p`, Debug of text), another type, an argument or a width that is not a literal, a template that does not parse -
-is Unreadable: the caller must treat the write as one it has no model of (fail closed)."""
+is Unreadable: the caller must treat the write as one it has no model of (fail closed).
+
+(While this model was written it was compared once with what std prints: 82 format strings - every flag, fill, alignment, width / precision given
+literally, by position and by name, explicit argument indices, all the traits above - as the fact extractor presents their templates, over every u8 and
+i8 value and samples of i32 / u64 / usize / str / char / bool: no difference.  That comparison is not part of any check.)"""
 
 ARG_NEW = "core::fmt::rt::Argument::<'_>::new_"
 ARG_COUNT = "core::fmt::rt::Argument::<'_>::from_usize"
